@@ -57,8 +57,23 @@ func init() {
 				if w.T.Bool(1, 3, "approval-feature") {
 					sf := sf
 					_ = sf.F.AddWriteApprovalCallback(func(msg *api.Message) {
-						w.Logf("approval requested for %s (application stays silent)", AddrStr(sf.F.Address()))
-						w.Probe("approval-left-pending")
+						// the application stays silent (the timer decides) or gives its verdict a little
+						// later - possibly while the writer's or another peer's connection is removed
+						if !w.T.Bool(1, 2, "verdict") {
+							w.Logf("approval requested for %s (application stays silent)", AddrStr(sf.F.Address()))
+							w.Probe("approval-left-pending")
+							return
+						}
+						for k := w.T.Choose(6, "think"); k > 0; k-- {
+							w.Yield("think")
+						}
+						e := model.ErrorType{}
+						if w.T.Bool(1, 3, "deny") {
+							e = *model.NewErrorTypeFromString("no")
+						}
+						w.Logf("verdict for a write on %s", AddrStr(sf.F.Address()))
+						sf.F.ApproveOrDenyWrite(msg, e)
+						w.Probe("approval-verdict-given")
 					})
 					sf.F.SetWriteApprovalTimeout([]time.Duration{time.Second, 5 * time.Second, 30 * time.Second}[w.T.Choose(3, "approval-timeout")])
 					d.approval = append(d.approval, sf)
